@@ -9,7 +9,7 @@ def boundary_name(per, kind):
 def rhd_param(outdir, ncell=(8, 8, 8), nsub=(2, 2, 2), periodic=(True, True, True), side=(1.0, 1.0, 1.0),
               anchor=(0.0, 0.0, 0.0), wall="reflective", gamma=5. / 3., total_time=1.0e-3, cfl=0.2,
               min_dt=None, max_dt=None, blocks=None, radiation=False, seed=42, dump_every_step=False,
-              max_backups=1, nphoton=1000, niter=1, riemann="Exact", extra="", relative_paths=False):
+              max_backups=1, nphoton=1000, niter=1, riemann="Exact", extra="", relative_paths=False, nsources=1):
     """Write <outdir>/run.param and <outdir>/blocks.yml; returns the param path.
 
     blocks: list of dicts(origin, sides, n (m^-3), T (K), v (m/s)) - default two
@@ -90,10 +90,7 @@ HydroBoundaryManager:
   boundary z high: %(bz)s
   boundary z low: %(bz)s
 
-PhotonSourceDistribution:
-  type: SingleStar
-  luminosity: 1.e+46 s^-1
-  position: [%(sx)r m, %(sy)r m, %(sz)r m]
+%(psd)s
 
 PhotonSourceSpectrum:
   type: Monochromatic
@@ -134,9 +131,20 @@ TemperatureCalculator:
            dumpint="0. s" if dump_every_step else "1.e9 s", maxb=max_backups,
            a0=anchor[0], a1=anchor[1], a2=anchor[2], s0=side[0], s1=side[1], s2=side[2],
            cfl=cfl, rad=bl(radiation), niter=niter, nphoton=nphoton, seed=seed, tt=total_time,
+           psd=("PhotonSourceDistribution:\n  type: SingleStar\n  luminosity: 1.e+46 s^-1\n  position: [%r m, %r m, %r m]\n" % (
+               anchor[0] + 0.5 * side[0], anchor[1] + 0.5 * side[1], anchor[2] + 0.5 * side[2])) if nsources == 1 else
+               ("PhotonSourceDistribution:\n  type: AsciiFile\n  filename: %s/sources.yml\n" % ("." if relative_paths else outdir)),
            dts=("  minimum timestep: %r s\n" % min_dt if min_dt else "") +
                ("  maximum timestep: %r s\n" % max_dt if max_dt else ""),
            extra=extra)
+    if nsources > 1:
+        frac = [(0.5, 0.5, 0.5), (0.2, 0.7, 0.3), (0.8, 0.3, 0.6), (0.3, 0.2, 0.8), (0.7, 0.8, 0.2)][:nsources]
+        lum = [1., 2., 5., 3., 7.][:nsources]
+        y = "number of sources: %d\n\n" % nsources
+        for i in range(nsources):
+            y += "source[%d]:\n  position: [%r m, %r m, %r m]\n  luminosity: %r s^-1\n\n" % (
+                (i,) + tuple(anchor[k] + frac[i][k] * side[k] for k in range(3)) + (1.0e46 * lum[i] / sum(lum),))
+        open(os.path.join(outdir, "sources.yml"), "w").write(y)
     path = os.path.join(outdir, "run.param")
     open(path, "w").write(p)
     return path
